@@ -286,6 +286,40 @@ fn security_universe(out: &mut Out, thorough: bool) {
     }
 }
 
+/// Directed: levels whose total modulus is wider than one word while its LOW word is below the plain modulus, with a plain modulus wider
+/// than every coefficient prime (no fast plain lift): the multi-word difference q - t (`plain_upper_half_increment`) must borrow from the
+/// second word.  For random chains this happens with probability t / 2^64; here the chains are searched for it (wide t: 1/32 per level).
+fn borrow_contexts(out: &mut Out, r: &mut Rng, thorough: bool) {
+    for &n in &[16usize, 64] {
+        let mut cand: Vec<u64> = vec![];
+        // (primes from `get_primes` all sit just below a power of two: their products have low words just below 2^64; scatter them instead)
+        for bits in [36u32, 40, 44, 48, 50] { let mut got = 0; let mut tries = 0; while got < 6 && tries < 4000 { tries += 1;
+            let v = (r.bits(bits) / (2 * n as u64)) * (2 * n as u64) + 1; if v >> (bits - 1) == 1 && hu::is_prime(&Modulus::new(v)) && !cand.contains(&v) { cand.push(v); got += 1; } } }
+        let mut found = 0;
+        for _try in 0..8 {
+            let t = ((1u64 << r.range(57, 59)) + 2 * r.below(1 << 50)) | 1;
+            'search: for &a in &cand { for &b in &cand {
+                if a == b { continue; }
+                let prod = a as u128 * b as u128;
+                if prod >> 64 == 0 || (prod as u64) >= t { continue; }
+                let c = match cand.iter().find(|&&c| c != a && c != b && gcd13(c, t) == 1) { Some(&c) => c, None => continue };
+                if gcd13(a, t) != 1 || gcd13(b, t) != 1 { continue; }
+                for scheme in [1u64, 3] {
+                    // (a, b) is the first data level below the special prime c; also as the key level itself without a special prime
+                    emit_ctx(out, &Spec { scheme, n, q: Some(vec![a, b, c]), t, sec: 0, expand: true, special: false }, "borrow-low-word");
+                    emit_ctx(out, &Spec { scheme, n, q: Some(vec![a, b]), t, sec: 0, expand: false, special: false }, "borrow-low-word-key");
+                    emit_word(out, &Spec { scheme, n, q: Some(vec![a, b]), t, sec: 0, expand: false, special: false }, "word-borrow");
+                }
+                found += 1;
+                break 'search;
+            } }
+            if found >= (if thorough { 6 } else { 2 }) { break; }
+        }
+        if found == 0 { out.raw(&format!("!NOTE borrow_contexts n={} no chain with a low word below t found", n)); }
+    }
+}
+fn gcd13(a: u64, b: u64) -> u64 { if b == 0 { a } else { gcd13(b, a % b) } }
+
 fn random_universe(out: &mut Out, r: &mut Rng, thorough: bool) {
     let cases = if thorough { 1500 } else { 220 };
     for _ in 0..cases {
@@ -379,4 +413,5 @@ pub fn run(out: &mut Out, thorough: bool, seed: u64, extra: &[String]) {
     if part == "all" || part == "ladder" { ladder_universe(out, thorough); }
     if part == "all" || part == "chain" { flags_universe(out, thorough); security_universe(out, thorough); }
     if part == "all" || part == "random" { random_universe(out, &mut r, thorough); }
+    if part == "all" || part == "random" { let mut r2 = Rng::new(seed ^ 0xb0aa_0013); borrow_contexts(out, &mut r2, thorough); }
 }
